@@ -545,6 +545,25 @@ def ser_stubs(cx, engine):
     def h_newvec(engine, st, fr, callee, argv, m):
         return Opaque("Vec<Value>", "fresh", {"items": ()})
 
+    def h_veclen(engine, st, fr, callee, argv, m):
+        # the number of collected items is arbitrary (the prefix is abstract)
+        n = z3.BitVec("veclen_%d" % next(engine.fresh), 64)
+        if m.group(1) == "is_empty":
+            return BoolV(n == 0)
+        return Int(n, "usize")
+
+    def h_vectake(engine, st, fr, callee, argv, m):
+        # an item taken OUT of the collection (remove / pop / swap_remove): an abstract element of it; what remains is not the collection
+        v = unref(st, argv[0])
+        if not (isinstance(v, Opaque) and "items" in v.attrs):
+            raise Unsupported("%s on %r" % (m.group(1), v))
+        items = tuple(v.attrs["items"])
+        engine.store(st, argv[0].addr, Opaque(v.ty, v.label, {"items": (Term("rest-after-" + m.group(1), items),)}))
+        item = T(Term("item-taken-by-" + m.group(1), items))
+        if m.group(1) == "pop":
+            return EnumV("Option", z3.BitVec("pop_%d" % next(engine.fresh), 64), {0: [], 1: [item]})
+        return item
+
     def h_box_uninit(engine, st, fr, callee, argv, m):
         # first half of the `vec![a, b, ..]` expansion: an uninitialised boxed array (a heap object of the engine)
         n = st.notes.get("nbox", 0) + 1
@@ -581,6 +600,8 @@ def ser_stubs(cx, engine):
         (re.compile(r"^(to_value::<|<\w+ as Serialize>::serialize::<)"), h_ser),
         (re.compile(r"^Vec::<Value>::push$"), h_push),
         (re.compile(r"^Vec::<Value>::(with_capacity|new)$"), h_newvec),
+        (re.compile(r"^Vec::<Value>::(len|is_empty)$"), h_veclen),
+        (re.compile(r"^Vec::<Value>::(remove|swap_remove|pop)$"), h_vectake),
         (re.compile(r"^Box::<\[Value; \d+\]>::new_uninit$"), h_box_uninit),
         (re.compile(r"^(?:std::boxed::)?box_assume_init_into_vec_unsafe::<Value, \d+>$"), h_box_into_vec),
         (re.compile(r"^(?:std::option::)?Option::<usize>::map_or_else::<Vec<Value>"), h_newvec),
@@ -697,6 +718,24 @@ def claim_ser_shapes(cx0, res, kf):
     run("Serializer", "serialize_newtype_struct", 2, None, expect(lambda a: ser(a[1])), "serialize_newtype_struct")
     run("Serializer", "serialize_unit_variant", 3, None, expect(lambda a: Term("symbol", a[2])), "serialize_unit_variant")
     run("Serializer", "serialize_newtype_variant", 4, None, expect(lambda a: Term("cons", Term("symbol", a[2]), ser(a[3]))), "serialize_newtype_variant")
+
+    # ---- text and byte buffers: a string / byte vector on every path (whatever the length), never another serialize_* shape
+    def kind_only(variant):
+        def spec(eng, st, info, payload):
+            v = payload
+            while isinstance(v, Ref):
+                v = eng.load(st, v.addr)
+            if not (isinstance(v, EnumV) and v.name == "Value"):
+                return "returns %r, documented is Value::%s of the argument" % (v, variant)
+            r, _ = res.solve(list(st.pc) + [v.discr != VAL.index(variant)])
+            if r != z3.unsat:
+                return "builds a value of another kind than Value::%s (e.g. for some length of the buffer)" % variant
+            if any(e[0] == "ser" for e in st.events):
+                return "serializes something else on the way"
+            return None
+        return spec
+    run("Serializer", "serialize_bytes", 1, None, kind_only("Bytes"), "serialize_bytes")
+    run("Serializer", "serialize_str", 1, None, kind_only("String"), "serialize_str")
 
     # ---- collectors: one element step from an arbitrary prefix, and `end`
     PRE = Opaque("Value", "items collected so far", {})
